@@ -204,14 +204,29 @@ pub fn generate(seed: u64, tier: Tier) -> Case {
                 None => String::new(),
             },
         };
-        let path = format!("{dir}{stem}.pyxis");
+        let mut path = format!("{dir}{stem}.pyxis");
+        // Or a single file name that spells the path of a nested module of the project
+        // (`gfx::mesh.pyxis` next to `gfx/mesh.pyxis`): another module altogether.
+        if rng.chance(1, 4) {
+            let nested: Vec<String> = files
+                .iter()
+                .map(|(p, _)| p.trim_end_matches(".pyxis").to_string())
+                .filter(|p| p.contains('/') && !p.contains("::"))
+                .collect();
+            if !nested.is_empty() {
+                path = format!("{}.pyxis", rng.pick(&nested).replace('/', "::"));
+            }
+        }
         if !files.iter().any(|(p, _)| *p == path) {
             let n = rng.below(100);
-            // Half of them declare nothing: the file is still a module and still gets its output.
-            let text = if rng.chance(1, 2) {
-                String::new()
-            } else {
-                format!("#[align(4)]\npub type Odd{n} {{ pub a: u32 }}\n")
+            // Some declare nothing (the file is still a module and still gets its output), some
+            // a plain type, some a type with a vftable block (a generated item of their own).
+            let text = match rng.below(4) {
+                0 | 1 => String::new(),
+                2 => format!("#[align(4)]\npub type Odd{n} {{ pub a: u32 }}\n"),
+                _ => format!(
+                    "pub type OddOwner{n} {{\n    vftable {{\n        pub fn odd_fn_{n}(&self) -> u32;\n    }},\n}}\n"
+                ),
             };
             files.push((path, text));
             params.notes.push("env:unusual_module_file_name".into());
